@@ -15,6 +15,12 @@ CLAIMED = {
          'native back-end; std models'),
  'C05': ('5/C05', 'nogood search executed symbolically for Simple, both counting heuristics, Rand (every draw a fresh solver variable) and a Custom model heuristic (every admissible choice explored); delivered multiset compared with the definition, sender drop checked in the channel model, fuel exhaustion = non-termination candidate confirmed natively.',
          'roaring bitmaps as 32-bit vectors, crossbeam channel as FIFO model, StdRng over-approximated; bounded families (Rand/Custom: all 2-statement ADFs + seeded 3-statement ADFs)'),
+ 'C09': ('3.3, 5/C09', 'translation validation: every compiled program (text x native / biodivine bridge / pre-grounded bridge x sort mode) is decided exactly by z3 - for each statement, diagram (ITE term over the dumped node table) == acceptance formula over all assignments; pre-grounded import against the formula with z3-computed grounded values substituted. Repo instances + ~100 (quick) / 1000 (thorough) seeded texts with up to 60 statements.',
+         'reference reader/printer of the text format; validation of individual compilations, not a proof of the compiler', 'translation_validation',
+         'z3 equivalence checking of the real binary\'s compiled diagrams against the parsed formulas (translation validation), disagreements replayed natively'),
+ 'C10': ('5/C10, 10.2', 'every presentation (shuffled facts, layout, sort mode, injective renaming) of seeded ADFs is run through the real binary on several back-ends; the definitional answer is decided once per ADF by z3 on the formulas and each presentation must return exactly it as label->value maps; lexicographic mode must report byte-wise label order.',
+         'reference printer of the text format; instances drawn from the seed', 'translation_validation',
+         'z3-decided definitional answers compared with the real binary on every presentation of each drawn ADF'),
  'C11': ('5/C11', 'seeded call histories on one Adf object executed symbolically on all 256 two-statement ADFs and 3-statement families; final answer compared with a fresh object, acceptance handles with the submitted tables (z3), and every entry of the private memo tables (ite/restrict caches, supports, count cache, unique table) audited semantically by z3; one job explores every hash iteration order.',
          'std models; Rand excluded from the fresh-object comparison'),
  'C19': ('5/C19', 'producer, relay and last store executed symbolically with the channel model; each poll sees a symbolic non-decreasing prefix of the sent messages (solver variable) and requests an unconstrained symbolic handle; after every poll z3/structural checks: receiver table = producer prefix of consumed length, found <=> present afterwards; after the final drain all tables identical.',
